@@ -128,7 +128,7 @@ def run_history(hist):
 
 def main(argv):
     ck = Check('C20', argv)
-    sys.path.insert(0, '/repo')
+    sys.path.insert(0, os.environ.get('VERIF_REPO', '/repo'))
     from bfg9000.shell import windows
 
     # (a) design model vs Microsoft runtime model, exhaustive
